@@ -54,7 +54,7 @@ func c18Skeleton(e influxql.Expr, m *c10Mapping) M {
 	var res influxql.Expr
 	var tr influxql.TimeRange
 	var err error
-	if p := guard(func() { res, tr, err = influxql.ConditionExpr(influxql.CloneExpr(e), &influxql.NowValuer{Now: m.now}) }); p != "" {
+	if p := guard(func() { res, tr, err = influxql.ConditionExpr(influxql.CloneExpr(e), m.valuer()) }); p != "" {
 		return M{"n": "bad", "why": "panic: " + p}
 	}
 	if err != nil {
